@@ -95,6 +95,15 @@ FSplit2 == \E a \in Asgs(2), b \in Asgs(3) :
              InitCase([Base EXCEPT !.fam = "split2", !.mols = <<"MA", "MB">>, !.types = SplitTypes(3),
                           !.split = <<[rn |-> "RA", parts |-> PartsOf(a, 2)], [rn |-> "RB", parts |-> PartsOf(b, 3)]>>])
 
+(* ---- two split strings for different residue names that create the SAME new residue name, both string orders, every chain ---- *)
+(* ---- of 3-4 residues over {RA, RB} that holds both: residues from different sources must stay different residues          ---- *)
+FSplit3 == \E rs \in SeqsUpTo({"RA", "RB"}, 4), a \in Asgs(2), b \in Asgs(2), o \in BOOLEAN :
+             /\ Len(rs) >= 3 /\ {rs[i] : i \in 1..Len(rs)} = {"RA", "RB"}
+             /\ ({a[j] : j \in 1..2} \cap {b[j] : j \in 1..2}) \ {""} # {}
+             /\ LET sa == [rn |-> "RA", parts |-> PartsOf(a, 2)]  sb == [rn |-> "RB", parts |-> PartsOf(b, 2)] IN
+                InitCase([Base EXCEPT !.fam = "split3", !.mols = <<"MA">>, !.types = [MA |-> [k \in 1..Len(rs) |-> Res(rs[k], k, 2)]],
+                                      !.split = IF o THEN <<sa, sb>> ELSE <<sb, sa>>])
+
 (* ---- options address the residues -split creates (ids from 0) ---- *)
 ComboTypes == [MB |-> <<Res("RB", 1, 3), Res("RB", 2, 3)>>, LG |-> <<[rn |-> "W", id |-> 1, atoms |-> <<"w1">>]>>]
 FCombo == \E r \in {<<0, 1>>, <<0, 3>>, <<2, 3>>, <<1, 2>>}, q \in {<<0, 1>>, <<0, 3>>, <<2, 4>>, <<1, 2>>, <<0, 5>>} :
@@ -105,7 +114,7 @@ FCombo == \E r \in {<<0, 1>>, <<0, 3>>, <<2, 3>>, <<1, 2>>}, q \in {<<0, 1>>, <<
                          !.lig = <<[h |-> Sp(FALSE, "", TRUE, 2, TRUE, "X", TRUE, 0), l |-> Sp(TRUE, "LG", FALSE, 0, FALSE, "", FALSE, 0)]>>])
 
 RestA == FMolD \/ FRes \/ FMulti \/ FMultiR
-RestB == FStart \/ FStart2 \/ FLig \/ FLig2 \/ FSplit \/ FSplit2 \/ FCombo
+RestB == FStart \/ FStart2 \/ FLig \/ FLig2 \/ FSplit \/ FSplit2 \/ FSplit3 \/ FCombo
 Rest == RestA \/ RestB
 QuickInit == FMol(4) \/ Rest
 FullInit == FMol(5) \/ Rest
